@@ -11,6 +11,11 @@ KANI = [
         H("load_one_64", ["C24", "C06"], "every 64-byte input (V2/V3 layout, path <= 1 byte)", functions=DEC),
         H("load_one_67", ["C24", "C06"], "every 67-byte input (entry cut inside its padding)", functions=DEC),
         H("load_one_72", ["C24", "C06"], "every 72-byte input (path <= 9 bytes, extended flags, saturated length field with NUL-terminated path)", mem_gb=16, functions=DEC),
+        H("load_one_long_4094", ["C24"], "path of exactly 4094 bytes (concrete content), symbolic stat/id/flag bits, start of a following entry", tier="off", timeout=2400, mem_gb=16, functions=DEC),
+        H("load_one_long_4095", ["C24"], "path of exactly 4095 bytes: the first saturated length", tier="off", timeout=2400, mem_gb=16, functions=DEC),
+        H("load_one_long_4095_ext", ["C24"], "path of exactly 4095 bytes with extended flags (1 byte of padding)", tier="off", timeout=2400, mem_gb=16, functions=DEC),
+        H("load_one_long_4096", ["C24"], "path of exactly 4096 bytes", tier="off", timeout=2400, mem_gb=16, functions=DEC),
+        H("load_one_long_4100_ext", ["C24"], "path of 4100 bytes with extended flags", tier="off", timeout=2400, mem_gb=16, functions=DEC),
         H("load_one_80", ["C24", "C06"], "every 80-byte input", tier="thorough", timeout=3600, mem_gb=20, functions=DEC),
         H("load_one_96", ["C24"], "every 96-byte input", tier="thorough", timeout=5400, mem_gb=24, functions=DEC),
      ]},
@@ -29,6 +34,8 @@ KANI = [
         H("write_entries_9_10", ["C25"], "paths of 9 and 10 bytes", tier="off", functions=WR),
      ]},
 ]
+# load_one_long_*: boundary harness for paths around 4095 bytes (concrete content). Measured: no result in 40 min (symbolic execution of
+# the 4 K-iteration NUL search and path copy); tier off. The saturated-length branch is therefore only exercised with short paths.
 ASSUMPTIONS = [
     ("C24", "only the per-entry layout clause is under contract: an entry decoded by load_one has git's documented fields and occupies align8(62+ext+len+1) bytes (V2/V3), including the saturated 0xfff length field. Thread-limit independence, extensions, V4 path compression and 'what git stored' as a whole are undecided"),
     ("C25", "ONLY the flag-word clause is decided (full domain): the 16-bit flags word and the extended word produced from in-memory flags have git's bit layout and decode back. The byte layout written by write::entries / Entry::write_to (field order, NUL padding to 8, 0xfff saturation of the length field) is NOT decided: every harness through that code exhausts CBMC (io::Result drop glue is unrolled recursively up to the unwind bound: > 25 min / > 30 GB even for one entry with a 1-byte path); those harnesses are kept with tier 'off'. Checksum, header, extensions and 'git accepts the file' are undecided as well"),
